@@ -453,8 +453,11 @@ Fixpoint list_Z_eqb (a b : list Z) : bool :=
   end.
 
 Record span_case := mkspancase {
-  sc_start : nat * nat; sc_end : nat * nat;     (* Start of the first token, End of the last token *)
-  sc_nlines : nat; sc_span : list Z }.
+  sc_start : N * N; sc_end : N * N;     (* Start of the first token, End of the last token (line, column) *)
+  sc_nlines : N; sc_span : list Z }.
+
+Definition to_pos (p : N * N) : nat * nat := (N.to_nat (fst p), N.to_nat (snd p)).
 
 Definition span_chk (c : span_case) : bool :=
-  list_Z_eqb (make_span (sc_start c) (sc_end c)) (sc_span c) && span_okb (sc_nlines c) (sc_span c).
+  list_Z_eqb (make_span (to_pos (sc_start c)) (to_pos (sc_end c))) (sc_span c) &&
+  span_okb (N.to_nat (sc_nlines c)) (sc_span c).
